@@ -246,7 +246,7 @@ func genC03(g *Gen, idx int) *Plan {
 			case 2:
 				s.TIT, s.TopicID = refsn.TITPredefined, uint16(g.Range(1, 8))
 			case 3:
-				s.TIT, s.TopicID = refsn.TITShort, refsn.ShortID(shortPool[g.Intn(len(shortPool))])
+				s.TIT, s.TopicID = refsn.TITShort, g.shortID()
 			}
 			sg.add(s)
 		case 4, 5:
@@ -257,7 +257,7 @@ func genC03(g *Gen, idx int) *Plan {
 			case 1:
 				s.TIT, s.TopicID = refsn.TITPredefined, uint16(g.Range(1, 8))
 			case 2:
-				s.TIT, s.TopicID = refsn.TITShort, refsn.ShortID(shortPool[g.Intn(len(shortPool))])
+				s.TIT, s.TopicID = refsn.TITShort, g.shortID()
 			}
 			sg.add(s)
 		case 6:
